@@ -86,6 +86,11 @@ def canon(o, _memo=None):
             return hit[1]
         cls = type(o)
         name = cls.__module__ + "." + cls.__qualname__
+        uid = cls.__dict__.get("_sim_uid")
+        if uid:
+            # two distinct classes that share module and qualified name (a class factory
+            # called twice) are still two classes
+            name += "#" + uid
         flds = []
         for f in _expr_field_names(o):
             try:
